@@ -494,6 +494,23 @@ class UpdateCollection(Message):
                     withdraws = b''
                 mp_reach = mprnlri
 
+            if include_withdraw and withdraw_nlris and (mp_reach or withdraws or announced):
+                # MP_UNREACH is fragmented against what is left beside the pending MP_REACH.  When a
+                # withdrawn NLRI does not fit in that remainder, send what is pending first: the route
+                # fits a message of its own, and sharing one made packed_unreach_attributes() raise
+                # RuntimeError (the withdraw was lost with the rest of the batch)
+                beside = msg_size - len(withdraws + announced + mp_reach)
+                largest = max(len(nlri.pack_nlri(negotiated)) for nlri in withdraw_nlris)
+                if mp_withdraw._attr_len(len(afi.pack_afi() + safi.pack_safi()) + largest) > beside:
+                    yield self._message(
+                        UpdateCollection.prefix(withdraws) + UpdateCollection.prefix(attr + mp_reach) + announced
+                        if (mp_reach or announced)
+                        else UpdateCollection.prefix(withdraws) + UpdateCollection.prefix(b'') + announced
+                    )
+                    mp_reach = b''
+                    announced = b''
+                    withdraws = b''
+
             if include_withdraw:
                 for mpurnlri in mp_withdraw.packed_unreach_attributes(
                     negotiated,
